@@ -872,6 +872,90 @@ Fixpoint descr (cfg : icfg) (v : gval) {struct v} : bool :=
   | _ => true
   end.
 
+(* one-event values that can be map keys, with the key the validator derives from the event *)
+Fixpoint key_of (v : gval) : option rawkey :=
+  match v with
+  | VBool b => Some (RkBool b)
+  | VInt z => Some (RkInt64 z)
+  | VUint n => Some (RkUint64 n)
+  | VString s => Some (RkString s)
+  | VUid b => Some (RkBytes b)
+  | VTime _ t => Some (RkTime t)
+  | VBigInt _ z => Some (RkBigInt z)
+  | VIface k | VOPtr k => key_of k
+  | _ => None
+  end.
+Definition is_some {A} (o : option A) : bool := match o with Some _ => true | None => false end.
+
+(* no key repeats, in the order the validator sees them *)
+Fixpoint keys_fresh (seen : list nkey) (l : list nkey) : bool :=
+  match l with
+  | [] => true
+  | k :: r => negb (existsb (nkey_eqb k) seen) && keys_fresh (k :: seen) r
+  end.
+Definition key_norm (v : gval) : nkey :=
+  match key_of v with Some k => norm_key k | None => NkBool false end.
+
+Definition string_ok (rc : rcfg) (s : bytes) : bool := length_ok rc (blen s) && utf8_valid s.
+Definition kept_names (cfg : icfg) (v : gval) : list bytes :=
+  map (fun it : item => field_name cfg (fst (fst it))) (kept_items (items_of cfg v)).
+
+(* [vok rc cfg d v]: the value v, standing d containers deep, is within what the validator
+   (limits rc) can accept from the iterator without recursion support:
+   - strings, resource ids, field names and media types are valid UTF-8 within the size limit;
+     arrays are within the size limit (and their bit size does not wrap at 2^64);
+   - containers nest no deeper than the depth limit;
+   - map keys are one-event keyable values (bool, integers, string, uid, time) that stay distinct
+     as document keys; the emitted field names of a struct are distinct;
+   - a value of a registered record type keeps as many fields as its type declares, and the
+     record name is a valid identifier;
+   - no types.Edge (no end-container event is emitted for it).
+   Fields that are omitted are required to be acceptable too (simplification). *)
+Fixpoint vok (rc : rcfg) (cfg : icfg) (d : N) (v : gval) {struct v} : bool :=
+  match v with
+  | VString s => string_ok rc s
+  | VUrl _ t => string_ok rc t
+  | VNum _ k es => (len es * 64 <? two64) && length_ok rc (blen (num_bytes k es))
+  | VBools _ l => (len l <? two64) && length_ok rc (blen (pack_bools l))
+  | VMedia _ mt data => utf8_valid mt && (blen data * 8 <? two64) && length_ok rc (blen data)
+  | VSlice _ es | VArray es =>
+      (d + 1 <=? max_container_depth rc) && forallb (vok rc cfg (d + 1)) es
+  | VMap _ kvs =>
+      (d + 1 <=? max_container_depth rc)
+      && forallb (fun kv => is_some (key_of (fst kv)) && vok rc cfg (d + 1) (fst kv) && vok rc cfg (d + 1) (snd kv)) kvs
+      && keys_fresh [] (map (fun kv => key_norm (fst kv)) kvs)
+  | VPtr _ p | VOPtr p | VIface p => vok rc cfg d p
+  | VStruct sid fs =>
+      (d + 1 <=? max_container_depth rc)
+      && forallb (fun iv => vok rc cfg (d + 1) (snd iv)) fs
+      && match find_record (c_records cfg) sid with
+         | Some r => validate_identifier rc (rt_name r)
+                     && (length (kept_names cfg (VStruct sid fs)) =? length (decl_keys cfg r))%nat
+         | None => forallb (string_ok rc) (kept_names cfg (VStruct sid fs))
+                   && keys_fresh [] (map NkString (kept_names cfg (VStruct sid fs)))
+         end
+  | VNode x ch =>
+      (d + 1 <=? max_container_depth rc) && vok rc cfg (d + 1) x
+      && match ch with VSlice _ es => forallb (vok rc cfg (d + 1)) es | _ => true end
+  | VEdge _ _ _ => false
+  | _ => true
+  end.
+
+(* the head of the document: record names are distinct valid identifiers, the keys of each
+   record type are distinct valid strings *)
+Fixpoint names_fresh (seen : list bytes) (l : list bytes) : bool :=
+  match l with
+  | [] => true
+  | n :: r => negb (existsb (bytes_eqb n) seen) && names_fresh (n :: seen) r
+  end.
+Definition head_ok (rc : rcfg) (cfg : icfg) : bool :=
+  (1 <=? max_container_depth rc)
+  && names_fresh [] (map rt_name (sort_records (c_records cfg)))
+  && forallb (fun r => validate_identifier rc (rt_name r)
+                       && forallb (string_ok rc) (decl_keys cfg r)
+                       && keys_fresh [] (map NkString (decl_keys cfg r)))
+             (c_records cfg).
+
 (* ------------------------------------------------------------------------- *)
 (* Correspondence cases: configuration, root value (None = nil), the events the
    implementation delivered, and whether the iteration completed (false: it panicked),
